@@ -19,5 +19,8 @@ class VariableBoundBoundsMinPropagator(VariableBoundMinPropagator):
         other.add_propagator(self)
         
     def min(self):
+        if len(self.other.domain.range_l) == 0:
+            # An empty domain on the other side imposes no limit
+            return self.target.domain.range_l[0][0]
         return (self.other.domain.range_l[0][0]+self.offset)
     
